@@ -112,11 +112,8 @@ class Checker:
         wall = time.time() - self.t0
         code = 0
         lines = []
-        if self.errors:
-            code = 2
-            for e in self.errors:
-                lines.append(f"ANALYSIS-ERROR property={self.prop} {e}")
-        if unmatched and code != 2:
+        if unmatched:
+            # a definite violation is reported even if other parts of the analysis were undecidable
             code = 1
             evid = os.environ.get("NSSA_EVID_DIR", EVID) if not os.environ.get("NSSA_NO_EVIDENCE") \
                 else "/tmp"
@@ -128,10 +125,11 @@ class Checker:
             lines.append(f"VIOLATION property={self.prop} replay={replay}")
             for o, _ in unmatched:
                 lines.append(f"  {o.where()} {o.func or '-'} {o.rule} [{o.instance}] {o.detail}")
-        elif unmatched:
-            for o, _ in unmatched:
-                lines.append(f"  (unreported because the analysis is incomplete) {o.where()} {o.rule} "
-                             f"[{o.instance}] {o.detail}")
+        if self.errors:
+            if code == 0:
+                code = 2
+            for e in self.errors:
+                lines.append(f"ANALYSIS-ERROR property={self.prop} {e}")
         seen = set()
         for o, k in matched:
             key = (k.get("rule"), k.get("construct"))
